@@ -534,6 +534,97 @@ Proof.
 Qed.
 
 (* ------------------------------------------------------------------ *)
+(* C02.7t : the same with a transport that fails transiently and a reader that retries *)
+(* ------------------------------------------------------------------ *)
+
+Lemma read_segs_S : forall f dir recs r cur more,
+  read_segs (S f) dir recs r cur more =
+  let '(res, r', rest) := read_message_t dir recs r cur in
+  res :: match res with
+         | RErrShort => match more with [] => [] | s :: more' => read_segs f dir recs r' s more' end
+         | _ => read_segs f dir recs r' rest more
+         end.
+Proof. reflexivity. Qed.
+
+Lemma read_message_t_failed : forall dir recs r input,
+  r_failed r = true -> read_message_t dir recs r input = (RErrMac, r, input).
+Proof. intros dir recs r input H. unfold read_message_t. rewrite H. reflexivity. Qed.
+
+Lemma oks_segs_failed : forall dir recs fuel r cur more,
+  r_failed r = true -> oks (read_segs fuel dir recs r cur more) = [].
+Proof.
+  induction fuel as [|f IH]; intros r cur more H; [reflexivity|].
+  rewrite read_segs_S, read_message_t_failed by assumption. cbv beta iota zeta.
+  rewrite oks_cons_mac. apply IH; assumption.
+Qed.
+
+Lemma prefix_segs_from : forall dir recs fuel k cur more,
+  is_prefix (oks (read_segs fuel dir recs (mk_reader (2 * Z.of_nat k) false) cur more)) (skipn k recs).
+Proof.
+  intros dir recs. induction fuel as [|f IH]; intros k cur more.
+  - apply is_prefix_nil.
+  - rewrite read_segs_S. unfold read_message_t. cbn [r_failed].
+    destruct cur as [|b cur'].
+    + rewrite oks_cons_short. destruct more as [|s more']; [apply is_prefix_nil | apply IH].
+    + destruct (read_message dir recs (mk_reader (2 * Z.of_nat k) false) (b :: cur')) as [[res r'] rest] eqn:E.
+      destruct (read_message_cases _ _ _ _ _ _ _ E) as [(p & -> & Hn & -> & _) | [Hno Hf]].
+      * rewrite oks_cons_ok, (skipn_nth _ _ _ _ Hn). apply is_prefix_cons. apply IH.
+      * destruct res as [p| |].
+        -- exfalso. eapply Hno; reflexivity.
+        -- rewrite oks_cons_mac, oks_segs_failed by assumption. apply is_prefix_nil.
+        -- rewrite oks_cons_short. destruct more as [|s more'].
+           ++ apply is_prefix_nil.
+           ++ rewrite oks_segs_failed by assumption. apply is_prefix_nil.
+Qed.
+
+Theorem prefix_always_transient : forall dir recs seg segs fuel, wf recs ->
+  is_prefix (oks (read_segs fuel dir recs (mk_reader 0 false) seg segs)) recs.
+Proof.
+  intros dir recs seg segs fuel _. apply (prefix_segs_from dir recs fuel 0%nat seg segs).
+Qed.
+
+(* without the latch (an error inside a record leaves the reader usable) the claim is false: the
+   reader takes the body of a 2-byte record for a header. Stated over the model of such a reader. *)
+Definition read_message_nolatch (dir : bool) (recs : list (list Z)) (r : reader) (input : list wbyte)
+  : rres * reader * list wbyte :=
+  let '(res, r', rest) := read_message_t dir recs r input in
+  match res with
+  | RErrShort => (res, mk_reader (r_op r') false, rest)
+  | _ => (res, r', rest)
+  end.
+
+Fixpoint read_segs_nolatch (fuel : nat) (dir : bool) (recs : list (list Z)) (r : reader)
+  (cur : list wbyte) (more : list (list wbyte)) : list rres :=
+  match fuel with
+  | O => []
+  | S f =>
+      let '(res, r', rest) := read_message_nolatch dir recs r cur in
+      res :: match res with
+             | RErrShort => match more with
+                            | [] => []
+                            | s :: more' => read_segs_nolatch f dir recs r' s more'
+                            end
+             | _ => read_segs_nolatch f dir recs r' rest more
+             end
+  end.
+
+Definition nolatch_recs : list (list Z) := [[0; 2]; [104; 101; 108; 108; 111]].
+Definition nolatch_segs : list (list wbyte) :=
+  [firstn 18 (writer_stream true nolatch_recs); skipn 18 (writer_stream true nolatch_recs)].
+
+Theorem transient_without_latch_refuted :
+  wf nolatch_recs /\
+  oks (read_segs_nolatch 4 true nolatch_recs (mk_reader 0 false) [] nolatch_segs) = [[0; 5]] /\
+  ~ is_prefix (oks (read_segs_nolatch 4 true nolatch_recs (mk_reader 0 false) [] nolatch_segs)) nolatch_recs.
+Proof.
+  assert (E : oks (read_segs_nolatch 4 true nolatch_recs (mk_reader 0 false) [] nolatch_segs) = [[0; 5]])
+    by (vm_compute; reflexivity).
+  split; [|split; [exact E|]].
+  - unfold wf, nolatch_recs. repeat constructor; vm_compute; discriminate.
+  - rewrite E. intros [t Ht]. discriminate Ht.
+Qed.
+
+(* ------------------------------------------------------------------ *)
 (* C02.8 : nothing is returned after an error                          *)
 (* ------------------------------------------------------------------ *)
 
